@@ -581,6 +581,11 @@ pub fn generate_with_grid(rng: &mut Rng, cfg: &GenCfg) -> (PragProblem, Vec<(i64
                     features.insert("required-breaks".into());
                 }
             }
+            // either kind may be listed first (break job ids are numbered per shift and kind)
+            if breaks.len() == 2 && rng.chance(0.5) {
+                breaks.swap(0, 1);
+                features.insert("required-break-listed-first".into());
+            }
             if !breaks.is_empty() {
                 shift.insert("breaks".into(), Value::Array(breaks));
             }
